@@ -102,19 +102,20 @@ template <typename T, typename E, int BITS> struct plain_k
     {
         T v = eval(p);
         T x = p.point()[0] - std::floor(p.point()[0] * T(4)) / T(4);   // exact: multiples of 2^-23 folded into [0, 1/4)
-        pr.add(0, x * T(4), v);
-        pr.add(1, x * T(4), p.point()[1] < T(0.5) ? T(0.25) : T(0.75), v + T(1));
+        // (the two-dimensional distribution comes first: what follows it in the reduction buffers is addressed past all of its bins)
+        pr.add(1, x * T(4), v);
+        pr.add(0, x * T(4), p.point()[1] < T(0.5) ? T(0.25) : T(0.75), v + T(1));
         return v;
     }
     template <typename CB> static chk serial(chk const& c, std::vector<std::size_t> const& plan, CB cb)
     {
         return hep::plain(hep::make_integrand<T>([](hep::mc_point<T> const& p, hep::projector<T>& pr) { return eval_dist(p, pr); }, d(),
-            hep::make_dist_params<T>(3, T(), T(1), "one"), hep::distribution_parameters<T>(3, 2, T(), T(1), T(), T(1), "two")), plan, c, cb);
+            hep::distribution_parameters<T>(3, 2, T(), T(1), T(), T(1), "two"), hep::make_dist_params<T>(3, T(), T(1), "one")), plan, c, cb);
     }
     template <typename CB> static chk parallel(MPI_Comm comm, chk const& c, std::vector<std::size_t> const& plan, CB cb)
     {
         return hep::mpi_plain(comm, hep::make_integrand<T>([](hep::mc_point<T> const& p, hep::projector<T>& pr) { return eval_dist(p, pr); }, d(),
-            hep::make_dist_params<T>(3, T(), T(1), "one"), hep::distribution_parameters<T>(3, 2, T(), T(1), T(), T(1), "two")), plan, c, cb);
+            hep::distribution_parameters<T>(3, 2, T(), T(1), T(), T(1), "two"), hep::make_dist_params<T>(3, T(), T(1), "one")), plan, c, cb);
     }
 };
 // PLAIN with one large two-dimensional distribution (300 x 220 bins): the reduction buffer has more than 2^17 elements
@@ -270,6 +271,12 @@ template <typename T, typename E, int BITS> struct mc1c_k : mc_k<T, E, BITS>
             1, map1_t(), 1, 1), plan, c, cb);
     }
 };
+// beta = 0 with a minimum weight that clamps: every refinement still moves the weights (clamp, renormalise), under MPI as in the serial run
+template <typename T, typename E, int BITS> struct mcb0_k : mc_k<T, E, BITS>
+{
+    typedef typename mc_k<T, E, BITS>::chk chk;
+    static chk fresh(E const& e) { return hep::make_multi_channel_chkpt<T, E>(std::vector<T>{T(0.02), T(0.98), T(0), T(1)}, T(0.1), T(), e); }
+};
 // more coordinates (3) than random numbers (1): the consumption follows the random numbers
 template <typename T, typename E, int BITS> struct mcmd_k : mc_k<T, E, BITS>
 {
@@ -383,7 +390,7 @@ template <int B> static long long start_pos(counter_engine<B> const& e) { return
 
 template <typename K, typename T, typename E>
 static void one_run(char const* ename, E const& engine, bool has_pos, int world, std::vector<std::size_t> const& plan, double target,
-    hep::callback_mode mode = hep::callback_mode::silent, std::size_t pre = 0, bool fine_values = false, bool big = false)
+    hep::callback_mode mode = hep::callback_mode::silent, std::size_t pre = 0, bool fine_values = false, bool big = false, bool loose = false)
 {
     typedef typename K::chk C;
     int id = run_counter++;
@@ -402,7 +409,7 @@ static void one_run(char const* ename, E const& engine, bool has_pos, int world,
     }
     ev("MRun").i("run", id).s("kind", K::name()).s("T", type_name<T>::get()).s("engine", ename).i("P", world).a("plan", plan)
         .i("usage", (long long) (K::per_call() * k)).i("hasPos", has_pos ? 1 : 0).i("base", start_pos(engine)).i("posMod", std::string(ename) == "counter32" ? 1048576 : 8388608).i("target", target > 0 ? 1 : 0)
-        .i("exactFirstOnly", std::string(K::name()) == "plain" ? 0 : 1).i("n0", (long long) pre).i("sqExact", fine_values ? 0 : 1).i("big", big ? 1 : 0).emit();
+        .i("exactFirstOnly", std::string(K::name()) == "plain" ? 0 : 1).i("n0", (long long) pre).i("sqExact", fine_values ? 0 : 1).i("big", big ? 1 : 0).i("loose", loose ? 1 : 0).emit();
     ectx.fine = fine_values;
     // serial reference
     if (root)
@@ -464,6 +471,8 @@ template <typename T> static void family(rng& g, std::vector<int> const& worlds,
         one_run<mc1_k<T, counter_engine<64>, 64>, T>("counter64", counter_engine<64>(s), true, w, make_plan(g, w), 0.0);
         one_run<mc1c_k<T, counter_engine<64>, 64>, T>("counter64", counter_engine<64>(s), true, w, make_plan(g, w), 0.0);
         one_run<mcmd_k<T, counter_engine<64>, 64>, T>("counter64", counter_engine<64>(s), true, w, make_plan(g, w), 0.0);
+        one_run<mcb0_k<T, std::mt19937, 0>, T>("mt19937", std::mt19937(s), false, w, std::vector<std::size_t>{60, 50, 70}, 0.0, hep::callback_mode::silent, 0, false,
+            false, true);
         one_run<vegas0_k<T, std::mt19937, 0>, T>("mt19937", std::mt19937(s), false, w, std::vector<std::size_t>{120, 90, 150}, 0.0);
         if (w >= 2)
         {
